@@ -191,15 +191,17 @@ PLAN["C07"] = dict(
 )
 
 _SORT_FUNCS = [(SORT, "sort#passes"), (SORT, "process_alignment#body"), (SORT, "write_to_file")]
+_SORT_FUNCS_C09 = _SORT_FUNCS + [(GFA, "GFA.add_node")]  # the sn:Z value is the SN tag as add_node stored it
 PLAN["C09"] = dict(
     level="proof",
-    functions=_SORT_FUNCS,
+    functions=_SORT_FUNCS_C09,
     explanation="Both passes of sort() against the abstract reader/writer contract: pass 1 records exactly one (offset, keys) entry per input "
                 "record with the offset taken before the read; list.sort yields a permutation (ghost maps both ways); pass 2 writes, for the "
                 "t-th sorted entry, the input line at that offset (rstrip'ed) followed by exactly bo:i:<BO>, sn:Z:<sn>, iv:i:<inv>; hence the "
                 "output is a permutation of the input records, each unchanged plus three tags. process_alignment's body is verified for every "
                 "path length: anchor = last node iff strictly more tagged scaffold steps are '<' than '>', (BO,NO) of the anchor, start on the "
-                "anchor side, iv = 1 iff both orientations occur among tagged scaffold steps, sn = SN of the first rank-0 node or 'unknown'.",
+                "anchor side, iv = 1 iff both orientations occur among tagged scaffold steps, sn = SN of the first rank-0 node or 'unknown'; add_node "
+                "stores every S-line tag whole as (type, value) (split at the first two ':' only), so that SN value is the contig name as written.",
     trusted_base=["reader contract (tell/readline/seek with opaque strictly increasing offsets) for text files and BGZFile: assumed, exercised by the bounded stand-in",
                   "line.rstrip().split('\\t') = field list of the record (assumed)", "bytes branch (decode) equals the str branch: not modelled, bounded only"],
     mutations=[
